@@ -35,7 +35,7 @@ ENC_SYNS = ["der", "uper", "cper", "oer", "coer", "xer", "cxer"]
 
 # ------------------------------------------------------------------ running histories
 
-def run_resume(exe, lines, timeout=1200, env=None):
+def run_resume(exe, lines, timeout=45, env=None):
     """feed lines; when the driver dies on a line, record the crash and go on with the next one.
     returns list of (output line | None, stderr tail | None)"""
     res, exits = [], []
@@ -301,11 +301,19 @@ def _kf_oer_integer_empty(ts, ops, fop, err, out):
     # INTEGER_decode_oer reads *ptr although the contents are empty (a C04 matter met by the garbage decodes)
     if "heap-buffer-overflow" in err and "INTEGER_decode_oer" in err and re.search(r"i\d+\[\d+,\*,", ts) and \
             any(o.split(":")[0].split("@")[0] == "dec" and o.split(":")[1] == "oer" for o in ops):
-        return "C14-oer-integer-empty-contents-read"
+        return "C14-oer-integer-empty-contents"
     return None
 
 
-KNOWN_PREDICATES = [_kf_setof_sorted_null, _kf_oer_integer_empty]
+def _kf_choice_eoc_loop(ts, ops, fop, err, out):
+    # CHOICE_decode_ber never returns on `00 xx` where end-of-contents octets are expected (C04-choice-ber-eoc-loop)
+    if err.startswith("rc=-9") and "TIMEOUT" in err and re.search(r"x\d+c\{", ts) and \
+            any(o.split(":")[0].split("@")[0] in ("dec", "decr") and o.split(":")[1] == "ber" for o in ops):
+        return "C14-choice-ber-eoc-loop"
+    return None
+
+
+KNOWN_PREDICATES = [_kf_setof_sorted_null, _kf_oer_integer_empty, _kf_choice_eoc_loop]
 
 
 def classify_oracle(ts, ops, opi, kind, p, x):
@@ -319,6 +327,16 @@ def classify_oracle(ts, ops, opi, kind, p, x):
 
 
 # ------------------------------------------------------------------ main
+
+KF_SAMPLES = {}
+
+
+def known(run, fid, line):
+    run.known_finding(fid, line)
+    KF_SAMPLES.setdefault(fid, [])
+    if len(KF_SAMPLES[fid]) < 3:
+        KF_SAMPLES[fid].append(line[:400])
+
 
 def own_findings(run):
     """the lead assembles known_findings.json; until then read this property's fragment directly"""
@@ -452,7 +470,7 @@ def main(tier):
             if not h["parsed"]:
                 fid = classify_known(c["ts"], h["ops"], None, h["err"], h["out"])
                 if fid:
-                    run.known_finding(fid, line)
+                    known(run, fid, line)
                 else:
                     run.violation("crash:history", dict(rep, what="moddrv died or printed an unparsable line on a history without allocation failure",
                                                         c=h["out"], stderr_tail=(h["err"] or "")[-2500:]))
@@ -472,7 +490,7 @@ def main(tier):
             if not p:
                 fid = classify_known(c["ts"], x["ops"], x["ops"][x["i"]], x.get("err"), x.get("out"))
                 if fid:
-                    run.known_finding(fid, line)
+                    known(run, fid, line)
                 else:
                     run.violation("crash:alloc-failure", dict(rep, what="moddrv died when allocation %d of op %d (%s) returned NULL" % (x["k"], x["i"], x["ops"][x["i"]].split(":")[0]),
                                                               c=x.get("out"), stderr_tail=(x.get("err") or "")[-2500:]))
@@ -489,7 +507,7 @@ def main(tier):
           "the real allocator and the detection of double frees are runtime facts: the theorems speak about the ownership discipline of the model"]
     return run.finish("proof", (nthm, ndis), trusted_base=tb,
                       checker_cmd="make -C /verif all && coqc -Q coq A1 coq/Props/Properties_C14.v",
-                      extra_cov={"theorems": names, "modules": len(mods), "alloc_failure_replays": nrep,
+                      extra_cov={"theorems": names, "modules": len(mods), "alloc_failure_replays": nrep, "known_finding_samples": KF_SAMPLES,
                                  "rule": "one case = one history (<= 6 ops on one structure pointer) or one replay of it with one allocation failing; distinct command lines",
                                  "traces_validated_against_impl": run.cov["evaluations"]},
                       assumptions=["partial: the proof carries the ownership discipline of the model (what a structure owns, what free/reset release); the C's allocator behaviour is observed by the ledger on the explored histories only",
@@ -594,7 +612,7 @@ def check_history(run, rep, h, p, x, fresh):
     for kind, opi, what in bad:
         fid = classify_oracle(c["ts"], ops, opi, kind, p, x)
         if fid:
-            run.known_finding(fid, rep["command_line"])
+            known(run, fid, rep["command_line"])
             continue
         run.violation("oracle:%s(%s)" % (kind, kindtag), dict(rep, what=what, c=" | ".join("%s %s" % (d["op"], " ".join("%s=%s" % kv for kv in d.items() if kv[0] not in ("op", "hex"))) for d in p)))
 
